@@ -2,6 +2,7 @@ package parser
 
 import (
 	"fmt"
+	"strconv"
 	"strings"
 	"unicode"
 )
@@ -471,8 +472,34 @@ func (l *ExpandedLexer) readString() Token {
 				builder.WriteByte('\'')
 			case '\\':
 				builder.WriteByte('\\')
+			// the remaining escapes of the compact lexer: a string literal
+			// means the same in both syntaxes
+			case '0':
+				builder.WriteByte(0)
+			case 'a':
+				builder.WriteByte('\a')
+			case 'b':
+				builder.WriteByte('\b')
+			case 'f':
+				builder.WriteByte('\f')
+			case 'v':
+				builder.WriteByte('\v')
+			case 'x':
+				hex := l.readHexDigits(2)
+				val, err := strconv.ParseUint(hex, 16, 8)
+				if len(hex) != 2 || err != nil {
+					return Token{Type: ILLEGAL, Literal: "invalid \\x escape: expected 2 hex digits", Line: startLine, Column: startColumn}
+				}
+				builder.WriteByte(byte(val))
+			case 'u':
+				hex := l.readHexDigits(4)
+				val, err := strconv.ParseUint(hex, 16, 32)
+				if len(hex) != 4 || err != nil {
+					return Token{Type: ILLEGAL, Literal: "invalid \\u escape: expected 4 hex digits", Line: startLine, Column: startColumn}
+				}
+				builder.WriteRune(rune(val))
 			default:
-				builder.WriteByte(l.ch)
+				return Token{Type: ILLEGAL, Literal: fmt.Sprintf("unknown escape sequence: \\%c", l.ch), Line: startLine, Column: startColumn}
 			}
 			l.readChar()
 		} else {
@@ -498,6 +525,22 @@ func (l *ExpandedLexer) readString() Token {
 		Line:    startLine,
 		Column:  startColumn,
 	}
+}
+
+// readHexDigits consumes up to n hex digits following the current character
+// (same contract as Lexer.readHexDigits).
+func (l *ExpandedLexer) readHexDigits(n int) string {
+	var digits []byte
+	for i := 0; i < n; i++ {
+		next := l.peekChar()
+		isHex := (next >= '0' && next <= '9') || (next >= 'a' && next <= 'f') || (next >= 'A' && next <= 'F')
+		if !isHex {
+			break
+		}
+		l.readChar()
+		digits = append(digits, l.ch)
+	}
+	return string(digits)
 }
 
 func (l *ExpandedLexer) skipWhitespaceExceptNewlines() {
